@@ -48,7 +48,9 @@ Judge(v) == Report(WithXfer(v)) /\ bad' = bad \cup WithXfer(v)
 
 (* C13: the HTTP rendering of the result (status 0: the operation went through the Store API) *)
 Is4xx(n) == n >= 400 /\ n <= 499
-HttpOk(st, ok, good) == IF st = 0 \/ (ok /\ st = good) \/ (~ok /\ Is4xx(st)) THEN {} ELSE {"C13"}
+Is2xx(n) == n >= 200 /\ n <= 299
+\* (`good` is the number the pinned code answers with; what the property fixes is the class)
+HttpOk(st, ok, good) == IF st = 0 \/ (ok /\ Is2xx(st)) \/ (~ok /\ Is4xx(st)) THEN {} ELSE {"C13"}
 
 (* C13 (and C12 when the request was built by the command line client): the front end's answer is the *)
 (* answer the Store API gives to the same question in the same state (E.same, established by the harness *)
@@ -155,14 +157,14 @@ EvSlowRead ==
 EvGet ==
   /\ Is("get")
   /\ Judge(GetVerdict(g, E.id, E.res) \cup FrontEnd
-           \cup (IF E.status = 0 \/ E.status = (IF E.res = <<>> THEN 404 ELSE 200) THEN {} ELSE {"C13"}))
+           \cup (IF E.status = 0 \/ (IF E.res = <<>> THEN Is4xx(E.status) ELSE Is2xx(E.status)) THEN {} ELSE {"C13"}))
   /\ g' = IF E.res = <<>> /\ E.id \in Present(g) THEN [g EXCEPT !.gone = @ \cup {E.id}] ELSE g
   /\ UNCHANGED <<b, met, owed, lost, imported, src, known>>
 
 EvHead ==
   /\ Is("head")
   /\ Judge(HeadVerdict(g, E.topic, E.ctx, E.res) \cup FrontEnd
-           \cup (IF E.status = 0 \/ E.status = (IF E.res = <<>> THEN 404 ELSE 200) THEN {} ELSE {"C13"}))
+           \cup (IF E.status = 0 \/ (IF E.res = <<>> THEN Is4xx(E.status) ELSE Is2xx(E.status)) THEN {} ELSE {"C13"}))
   /\ LET top == IF E.res = <<>> THEN NOID ELSE E.res[1].id
          newer == {j \in TopicIds(g, E.ctx, E.topic) : j > top /\ ~Expired(j, g.acc[j], g.clock)}
      IN g' = [g EXCEPT !.gone = @ \cup newer]
@@ -219,7 +221,7 @@ EvBad ==
   /\ Is("bad")
   /\ Judge(IF /\ E.same /\ E.next = 200
               /\ \/ (E.expect = "4xx" /\ Is4xx(E.status))
-                 \/ (E.expect = "404" /\ E.status = 404)
+                 \/ (E.expect = "404" /\ Is4xx(E.status))
                  \/ (E.expect = "2xx" /\ E.status >= 200 /\ E.status <= 299)
            THEN {} ELSE {"C13"})
   /\ UNCHANGED <<b, g, met, owed, lost, imported, src, known>>
